@@ -1969,14 +1969,38 @@ def evaluate(ctx, h, index, nops, answer):
         ctx.report_s(sig, what, r)
 
 
+def probe_sort_named_array(ctx):
+    """S, outside the K stream (the model keeps declared sorts and built-in arrays apart, so
+    this scenario is not part of the compared histories): a user-declared sort called
+    `Array` of arity 2 must not be confused with the built-in array type."""
+    from pysmt.environment import Environment
+    env = Environment()
+    m, tm = env.formula_manager, env.type_manager
+    decl = tm.Type("Array", 2)
+    custom = tm.get_type_instance(decl, tm.INT(), tm.INT())
+    builtin = tm.ArrayType(tm.INT(), tm.INT())
+    x = m.Symbol("x", custom)
+    try:
+        y = m.Symbol("x", builtin)
+    except Exception:
+        y = None        # rejecting the second declaration is the correct outcome
+    ctx.case("probe:sort-named-Array")
+    if y is not None and (y is x or not y.symbol_type().is_array_type()):
+        ctx.report_s({"oracle": "identity", "shape": "declared-sort-named-Array-equals-builtin-array"},
+                     "Symbol('x', ArrayType(INT,INT)) returns the symbol declared with the user sort Array{Int, Int}: "
+                     "symbol_type().is_array_type() = %s" % y.symbol_type().is_array_type(),
+                     {"probe": "sort-named-Array"})
+
+
 def run(ctx):
     from concurrent.futures import ThreadPoolExecutor
     _load_ops()
     warnings.simplefilter("ignore")
     sys.setrecursionlimit(20000)
+    probe_sort_named_array(ctx)
     quick = ctx.tier == "quick"
     target = 2000 if quick else 14000
-    gen_budget = 50 if quick else 600
+    gen_budget = 42 if quick else 600
     batch = 400 if quick else 1000
     t0 = time.time()
     hs = []
@@ -2047,6 +2071,9 @@ def replay(ctx, rep):
     _load_ops()
     warnings.simplefilter("ignore")
     r = rep["replay"]
+    if "probe" in r:
+        probe_sort_named_array(ctx)
+        return
     h = make_history(r["seed"], r["index"], r["nops"], r.get("tier", "quick"))
     try:
         ans = ctx.lean_run("C04", [h.request()])[0]
